@@ -73,6 +73,8 @@ CEX_MAP = [
     (r'for\(T0,.*T10\)', ['laws_tuple11', 'bounded_tuple11']),
     (r'^fn$|combine_orderings', ['laws_product2', 'laws_product3']),
     (r'trait Lattice', ['laws_u8']),
+    (r'for BoundedSet<', ['laws_boundedset2_universe', 'laws_boundedset1_universe', 'laws_boundedset3_universe', 'bounded_boundedset2_universe']),
+    (r'for Set<T>', ['laws_set_universe', 'laws_option_set_universe', 'laws_dual_set_universe']),
 ]
 for _t in ['i8', 'u8', 'i16', 'u16', 'i32', 'u32', 'i64', 'u64', 'i128', 'u128', 'isize', 'usize']:
     CEX_MAP.append((r'for %s$' % _t, ['laws_%s' % _t, 'bounded_%s' % _t]))
@@ -90,9 +92,21 @@ def build_verus_unit():
     return path, sp.log, dt
 
 
-def run_verus_part():
+def build_set_unit():
+    from contracts import setlat as tmpl
+    txt, dt = expand_crate('ascent_base')
+    sp = Splicer({'ascent_base': Source(txt, 'ascent_base')})
+    out = sp.render(tmpl.template())
+    path = os.path.join(WORK, 'units', 'setlat_unit.rs')
+    os.makedirs(os.path.dirname(path), exist_ok=True)
+    with open(path, 'w') as f:
+        f.write(out + CANARY)
+    return path, sp.log, dt
+
+
+def run_verus_part(builder=None):
     t0 = time.time()
-    path, log, expand_s = build_verus_unit()
+    path, log, expand_s = (builder or build_verus_unit)()
     res = run_verus(path, timeout=900)
     text = open(path).read()
     loc = Locator(text, path)
@@ -174,15 +188,17 @@ def run_unit(tier):
     """Runs the three back ends concurrently and merges the outcome."""
     t0 = time.time()
     crate = kani.instantiate('lawcheck')
-    with ThreadPoolExecutor(max_workers=3) as ex:
+    with ThreadPoolExecutor(max_workers=4) as ex:
         fv = ex.submit(run_verus_part)
+        fs = ex.submit(run_verus_part, build_set_unit)
         fk = ex.submit(run_kani_part, tier, None, crate)
         binary, build_s = kani.build_native(crate, 'lawcheck')
         fn = ex.submit(run_native_part, tier, binary)
         v = fv.result()
+        sv = fs.result()
         k = fk.result()
         n = fn.result()
-    return {'verus': v, 'kani': k, 'native': n, 'binary': binary, 'wall_s': time.time() - t0}
+    return {'verus': v, 'verus_set': sv, 'kani': k, 'native': n, 'binary': binary, 'wall_s': time.time() - t0}
 
 
 def companions(vf):
@@ -208,6 +224,13 @@ def find_cex_for_verus_failure(vf, unit):
     """A failing input for a failed Verus obligation, taken from the harnesses of the same impl and
     replayed on the real code.  Returns dict or None."""
     cands = companions(vf)
+    # 0. failures already found by the native exhaustive runs of this unit
+    for nf in unit['native']['failures']:
+        if nf['harness'] in cands:
+            rp = kani.native_replay(unit['binary'], nf['harness'], nf['input'])
+            if rp['failed']:
+                return {'source': 'native exhaustive run', 'harness': nf['harness'], 'input_bytes': nf['input'], 'replay_failed': rp['failed'],
+                        'replay_stdout': rp['stdout']}
     # 1. Kani counterexamples of those harnesses
     for kf in unit['kani']['failures']:
         if kf['harness'] in cands:
